@@ -228,6 +228,33 @@ func simplify(v any) any {
 		return map[string]any{"a": simplify(t.A), "b": simplify(t.In2.B)}
 	case OutP3:
 		return map[string]any{"a": simplify(t.A), "b": simplify(t.In2.B), "c": simplify(t.C)}
+	case M:
+		return map[string]any{"A": simplify(t.A), "B": simplify(t.B), "C": simplify(t.C), "D": simplify(t.D), "Emb": simplify(t.Emb)}
+	case *M:
+		if t == nil {
+			return nil
+		}
+		return simplify(*t)
+	case Emb:
+		return map[string]any{"E": simplify(t.E)}
+	case *OrdBoth:
+		out := make(map[string]any, len(t.K))
+		for i, k := range t.K {
+			out[k] = simplify(t.V[i])
+		}
+		return out
+	case KMap:
+		out := make(map[string]any, len(t))
+		for k, e := range t {
+			out[k] = simplify(e)
+		}
+		return out
+	case ISlice:
+		out := make([]any, len(t))
+		for i, e := range t {
+			out[i] = simplify(e)
+		}
+		return out
 	case *OrdKeyed:
 		out := make(map[string]any, len(t.K))
 		for i, k := range t.K {
@@ -332,6 +359,75 @@ func (l *IdxList) RemoveValueAtIndex(i int) {
 	}
 }
 
+
+// OrdBoth is an ordered map that implements BOTH jp.Keyed and jp.Indexed (like the keydex type of ojg's own tests): the
+// members are reachable by name and by position (position = rank of the key in K, which Build fills in sorted key order).
+type OrdBoth struct {
+	OrdKeyed
+}
+
+func (o *OrdBoth) ValueAtIndex(i int) any {
+	if i < 0 || len(o.V) <= i {
+		return nil
+	}
+	return o.V[i]
+}
+func (o *OrdBoth) SetValueAtIndex(i int, v any) {
+	if 0 <= i && i < len(o.V) {
+		o.V[i] = v
+	}
+}
+func (o *OrdBoth) Size() int { return len(o.V) }
+
+// KMap is a Go map that also implements jp.Keyed (two collection readings of one value: the interface and reflect.Map).
+type KMap map[string]any
+
+func (m KMap) ValueForKey(key string) (any, bool) { v, ok := m[key]; return v, ok }
+func (m KMap) SetValueForKey(key string, value any) { m[key] = value }
+func (m KMap) RemoveValueForKey(key string)         { delete(m, key) }
+func (m KMap) Keys() []string {
+	ks := make([]string, 0, len(m))
+	for k := range m {
+		ks = append(ks, k)
+	}
+	sort.Strings(ks)
+	return ks
+}
+
+// ISlice is a Go slice that also implements jp.Indexed (the interface and reflect.Slice).
+type ISlice []any
+
+func (l ISlice) ValueAtIndex(i int) any {
+	if i < 0 || len(l) <= i {
+		return nil
+	}
+	return l[i]
+}
+func (l ISlice) SetValueAtIndex(i int, v any) {
+	if 0 <= i && i < len(l) {
+		l[i] = v
+	}
+}
+func (l ISlice) Size() int { return len(l) }
+
+// struct with the whole menu of field tags. The abstract object is the Go reflection view, keyed by the Go field names:
+// {A, B, C, D, Emb: {E}} - every exported field is a member (also the one tagged json:"-"), the unexported one is not, the
+// embedded struct is the member Emb. (Paths of the cases that use it name members by the Go field name only.)
+type Emb struct {
+	E any
+}
+type M struct {
+	A any `json:"a"`
+	B any `json:"-"`
+	C any `json:"c,omitempty"`
+	u any
+	D any
+	Emb
+}
+
+// MKeys is the key set an object must have to be held as M (the member Emb must be an object with the key set {E}).
+var MKeys = []string{"A", "B", "C", "D", "Emb"}
+
 // struct family: used where an object's key set is exactly the struct's field set
 type S1 struct {
 	A any `json:"a"`
@@ -378,6 +474,11 @@ const Hidden = "SHADOWED"
 // Reps lists the representations Build knows.
 // ("tmap", typed maps, can be built too but is not in the list: the statement of C11 does not name typed maps.)
 var Reps = []string{"simple", "gen", "tslice", "array", "struct", "pstruct", "estruct", "pestruct", "keyed"}
+
+// MultiReps: representations that implement several collection readings at once (C11 follow-up): "both" every object an
+// ordered map that is Keyed AND Indexed; "kmap" objects a Go map that is also Keyed, arrays a Go slice that is also Indexed;
+// "tmap" map[string]int64 where every member is an int; "mstruct" / "pmstruct" the tag-menu struct M (and a pointer to it).
+var MultiReps = []string{"both", "kmap", "mstruct", "pmstruct"}
 
 // Build holds the tree n in representation rep. used reports whether the representation differs from
 // "simple" anywhere (otherwise the case adds nothing).
@@ -508,6 +609,9 @@ func (b *builder) build(n Node) any {
 		case "keyed":
 			b.used = true
 			return &IdxList{V: kids}
+		case "kmap":
+			b.used = true
+			return ISlice(kids)
 		}
 		return kids
 	}
@@ -574,6 +678,39 @@ func (b *builder) build(n Node) any {
 		case "keyed":
 			b.used = true
 			return &OrdKeyed{K: append([]string{}, ks...), V: kids}
+		case "both":
+			b.used = true
+			return &OrdBoth{OrdKeyed{K: append([]string{}, ks...), V: kids}}
+		case "kmap":
+			b.used = true
+			out := make(KMap, len(ks))
+			for i, k := range ks {
+				out[k] = kids[i]
+			}
+			return out
+		case "mstruct", "pmstruct":
+			if len(ks) == len(MKeys) && IsObj(vs[4]) && len(Keys(vs[4])) == 1 && Keys(vs[4])[0] == "E" {
+				same := true
+				for i := range ks {
+					same = same && ks[i] == MKeys[i]
+				}
+				if same {
+					var e Emb
+					switch te := kids[4].(type) {
+					case Emb:
+						e = te
+					case *M: // not reachable: {E} is never held as M
+					case map[string]any:
+						e = Emb{E: te["E"]}
+					}
+					b.used = true
+					m := M{A: kids[0], B: kids[1], C: kids[2], u: Hidden, D: kids[3], Emb: e}
+					if b.rep == "pmstruct" {
+						return &m
+					}
+					return m
+				}
+			}
 		}
 		out := make(map[string]any, len(ks))
 		for i, k := range ks {
